@@ -24,6 +24,7 @@ def parse_uvl(path):
     lexer = UVLCustomLexer(FileStream(path, encoding="utf-8"))
     listener = fmt.SyntaxErrors()
     lexer.removeErrorListeners()
+    lexer.addErrorListener(listener)          # a character no token starts with is a syntax error too
     parser = UVLPythonParser(CommonTokenStream(lexer))
     parser.removeErrorListeners()
     parser.addErrorListener(listener)
@@ -498,9 +499,21 @@ def emit_uvl(m, rng, g):
 
 
 def invalidate(text, rng, g):
-    kind = rng.randrange(7)
+    kind = rng.randrange(9)
     g.count("uvl_invalid", kind)
     lines = text.split("\n")
+    if kind in (7, 8):
+        # errors reported by the LEXER: a character no token can start with; an empty string literal
+        a, b = rng.sample(["A", "B", "C", "Dd", "E1"], 2)
+        if kind == 7:
+            bad = rng.choice(["$", "#", "@", "`", "^"])
+            where = rng.randrange(3)
+            if where == 0:
+                return f"features\n\t{a}\n\t\toptional\n\t\t\t{b} {bad}\n"
+            if where == 1:
+                return f"features\n\t{a}\n\t\toptional\n\t\t\t{b}\nconstraints\n\t{a} {bad} {b}\n"
+            return f"features\n\t{a} {{k {bad}}}\n"
+        return f"features\n\t{a} {{k ''}}\n\t\toptional\n\t\t\t{b}\n"
     if kind in (5, 6):
         # errors the parser reports AT A LINE BREAK: a bracket left open on the last constraint line;
         # an operator without right operand at the end of a constraint line followed by another one
